@@ -31,9 +31,13 @@ pub fn compact(depth: usize) -> Value {
     rec(&mut vec![], len, &alphabet, &mut seqs);
     let want_sessions = match depth { 0 | 1 => 150, 2 => 1500, _ => usize::MAX };
     let stride = (seqs.len() / want_sessions).max(1);
-    for (cols, t, key_first, block) in [("k int primary key, v int", "c", true, 24usize), ("v int, k int", "n", false, 64)] {
+    // target RowSet sizes: everything fits into one RowSet / only some of the table's RowSets fit together (a pass then merges
+    // a subset and must leave the others alone)
+    for (cols, t, key_first, block, target) in [("k int primary key, v int", "c", true, 24usize, 1usize << 20), ("v int, k int", "n", false, 64, 1 << 20),
+                                                ("k int primary key, v int", "c", true, 24, 420), ("k int primary key, v int", "c", true, 24, 300), ("k int primary key, v int", "c", true, 64, 200), ("v int, k int", "n", false, 64, 200), ("v int, k int", "n", false, 64, 140)] {
+        let stride = if target < (1 << 20) { stride * 2 } else { stride };
         for (si, s) in seqs.iter().enumerate() {
-            if (si + block) % stride != 0 { continue; }
+            if (si + block + target) % stride != 0 { continue; }
             let mut sqls = vec![format!("create table {t}({cols})")];
             let (mut reopen, mut compact) = (vec![], vec![]);
             let mut model: Vec<(i64, i64)> = vec![];
@@ -64,9 +68,9 @@ pub fn compact(depth: usize) -> Value {
             }
             sqls.push(format!("select k from {t} order by k"));
             tried += sqls.len() as u64;
-            let input = |idx: usize| json!({"engine": format!("disk engine without background tasks, target_block_size={block}, target_rowset_size=1048576"),
+            let input = |idx: usize| json!({"engine": format!("disk engine without background tasks, target_block_size={block}, target_rowset_size={target}"),
                 "statements": &sqls[..=idx.min(sqls.len() - 1)], "reopen_before_statement": reopen, "compaction_pass_before_statement": compact, "failing_statement": sqls.get(idx)});
-            let outs = match h::sql_session_manual(block, 1 << 20, &sqls, &reopen, &compact) {
+            let outs = match h::sql_session_manual(block, target, &sqls, &reopen, &compact) {
                 Ok(o) => o,
                 Err(err) => return json!({"found": true, "tried": tried, "input": input(sqls.len() - 1), "observed": format!("the session failed: {err}")}),
             };
